@@ -1,0 +1,15 @@
+//go:build verif
+
+package vbft
+
+// Exported names for the unexported consensus message types, compiled only with the build tag `verif`
+// (used by the verification harness in /verif to build every message kind and call
+// SerializeVbftMsg / DeserializeVbftMsg / Verify on it; no behaviour change without the tag).
+
+type VerifBlockProposalMsg = blockProposalMsg
+type VerifBlockEndorseMsg = blockEndorseMsg
+type VerifBlockCommitMsg = blockCommitMsg
+type VerifPeerHandshakeMsg = peerHandshakeMsg
+type VerifPeerHeartbeatMsg = peerHeartbeatMsg
+type VerifBlockFetchMsg = blockFetchMsg
+type VerifProposalFetchMsg = proposalFetchMsg
